@@ -115,7 +115,18 @@ def wideRep (D : Nat) (N : IntTy) : Option IntTy :=
   `digits_v = D` on the storage type;
 * `scaled_integer<Rep, power<e, radix>>`: `static_assert(!(e & 1))`, then
   `from_rep<scaled_integer<Rep, power<e/2, radix>>>(sqrt(to_rep(x)))` — the result's `Rep` is
-  whatever `sqrt` of the representation returns. -/
+  whatever `sqrt` of the representation returns;
+* `overflow_integer<Rep, Tag>` / `rounding_integer<Rep, Mode>` (value level): these have no overload of
+  their own; the generic algorithm runs with every `+ - << >> >= >` forwarded to the operator of
+  `Rep` (for a checked tag preceded by the tag's overflow test of that one operation), and every
+  intermediate type is the wrapper of the type the same expression has over `Rep`.  On the
+  property's inputs no operation of the algorithm leaves the range of its type (`bit`, `root`,
+  `root + bit ≤ num ≤ x`, `num - (root + bit) ≥ 0`), so no test fires, no rounding takes place
+  (`>>` of a rounding_integer is the plain shift) and the result is the result over `Rep`,
+  re-wrapped.  That no test fires is NOT derived inside the model: it is what the correspondence
+  lines check (a `TRAP`/`THROW`/`UNREACHABLE` or a saturated value differs from the model and fails
+  the oracle).  Where the computation over `Rep` is undefined (outside the property) a checked tag
+  would report instead; that is left unmodelled (`ill`) and the harness does not emit such inputs. -/
 def sqrtNum : Ty → Int → Res Num
   | .int T, x => (sqrtInt T x).map (fun r => (Ty.int r.1, r.2))
   | .el D (.int N), x =>
@@ -137,6 +148,11 @@ def sqrtNum : Ty → Int → Res Num
   | .sc rep e radix, x =>
     if e % 2 ≠ 0 then .ill "static_assert(!(Exponent & 1))"
     else (sqrtNum rep x).map (fun r => (Ty.sc r.1 (e.tdiv 2) radix, r.2))
+  | .ov rep tag, x =>
+    match sqrtNum rep x with
+    | .ub k => if tag = .nat then .ub k else .ill "overflow_integer: an overflow reported by the tag is not modelled"
+    | r => r.map (fun r => (Ty.ov r.1 tag, r.2))
+  | .rd rep mode, x => (sqrtNum rep x).map (fun r => (Ty.rd r.1 mode, r.2))
   | _, _ => .ill "sqrt: operand type outside the model"
 
 end Cnl.Sqrt
